@@ -49,6 +49,16 @@ end:
 		}
 	}
 
+	// NOTE in fixed tree, right child without left child does not exist;
+	// node hash can not tell the only left child from the only right child.
+	for i := 0; i+1 < len(p.nodes); i += 2 {
+		left, right := p.nodes[i], p.nodes[i+1]
+
+		if left != nil && right != nil && left.IsEmpty() && !right.IsEmpty() {
+			return e.Errorf("empty left node with right node found at %d", i)
+		}
+	}
+
 	if util.IsDuplicatedSlice(p.nodes, func(n Node) (bool, string) {
 		if n.IsEmpty() {
 			return true, util.UUID().String()
